@@ -22,6 +22,8 @@ pub use adapt::{
     MassMatrixAdaptStrategy as VerifMassMatrixAdaptStrategy,
 };
 #[cfg(nuts_rs_verif)]
+pub use adapt::DrawGradCollector as VerifDrawGradCollector;
+#[cfg(nuts_rs_verif)]
 pub use diagonal::DiagMassMatrix as VerifDiagMassMatrix;
 #[cfg(nuts_rs_verif)]
 pub use low_rank::LowRankMassMatrix as VerifLowRankMassMatrix;
